@@ -68,7 +68,9 @@ def form_md(form, ext):
         return "| survey |\n| | type | name | label |\n| | texto | q1 | Q1 |\n"
     s = "| survey |\n| | type | name | label | choice_filter |\n| | text | q1 | Q1 | |\n| | begin group | grp | G | |\n| | integer | q2 | Q2 | |\n| | end group | | | |\n"
     if ext:
-        s += "| | select_one_external X | e1 | E1 | state=${q1} |\n| external_choices |\n| | list_name | name | label | state |\n| | X | x1 | X1 | s1 |\n| | X | x2 | X2 | s2 |\n"
+        # (the external select sits inside a group that has other container-valued cells: appearance, a translated-style bind column)
+        s = s.replace("| survey |\n| | type | name | label | choice_filter |", "| survey |\n| | type | name | label | choice_filter | appearance | bind::custom |")
+        s += "| | begin group | eg | EG | | field-list | x |\n| | select_one_external X | e1 | E1 | state=${q1} | | |\n| | end group | | | | | |\n| external_choices |\n| | list_name | name | label | state |\n| | X | x1 | X1 | s1 |\n| | X | x2 | X2 | s2 |\n"
     return s
 
 
